@@ -34,6 +34,14 @@
 #include "iora/parsers/http_message.hpp"
 #include "iora/parsers/json.hpp"
 
+#ifdef JOEGEN_IORA_VERIF
+// Verification seam (add-only, compiled out unless JOEGEN_IORA_VERIF is defined):
+// the in-process framing harness defines iora::verif::HttpClientProbe to drive the
+// private response framer (frameResponse & helpers) without a socket.
+#define JOEGEN_IORA_VERIF_HTTP_CLIENT_PROBE 1
+namespace iora { namespace verif { struct HttpClientProbe; } }
+#endif
+
 namespace iora
 {
 namespace network
@@ -96,6 +104,9 @@ public:
 /// async transport close for an evicted id cannot tear down a later reused id.
 class HttpClient
 {
+#ifdef JOEGEN_IORA_VERIF
+  friend struct ::iora::verif::HttpClientProbe;
+#endif
 public:
   /// \brief TLS configuration for HTTPS requests
   struct TlsConfig
